@@ -70,16 +70,17 @@ pub fn h_repeated_next<M: VMode, Er: VEr, const CFG: bool>() {
         let (ok, some, out) = item_of::<M>(&r);
         let at_cap = capped && count0 >= cap;
         if CFG {
-            vassert!(a.called != at_cap, "C15/configure_repeated.cap-in-force-is-the-configured-one-else-the-builders");
+            // C02: "the same bounds apply when the count comes from configure()"
+            vassert2!(a.called != at_cap, "C15/configure_repeated.cap-in-force-is-the-configured-one-else-the-builders", "C02/configure_repeated.cap-in-force-is-the-configured-one-else-the-builders");
             if a.called && !a.ok {
-                vassert!(ok == (count0 >= at_least), "C15/configure_repeated.minimum-in-force-is-the-configured-one-else-the-builders");
+                vassert2!(ok == (count0 >= at_least), "C15/configure_repeated.minimum-in-force-is-the-configured-one-else-the-builders", "C02/configure_repeated.minimum-in-force-is-the-configured-one-else-the-builders");
             }
         }
         if at_cap {
             vcover!(true, "repeated.next: at the cap");
             vassert!(ok && !some && !a.called, "C02/repeated.stops-at-at_most-without-trying-another-item");
             vassert!(s.pos == s0.pos && s.nsec == s0.nsec && s.alt == s0.alt && count == count0 && s.believed == s.pos, "C02/repeated.stopping-at-the-cap-changes-nothing");
-            vassert!(count0 >= at_least, "C02/repeated.stop-at-cap-only-when-minimum-reached");
+            vassert_finding!(count0 >= at_least, "C02/repeated.stop-at-cap-only-when-minimum-reached");
         } else {
             vassert!(a.called && a.calls == 1 && a.entry_pos == s0.pos && a.entry_sec == s0.nsec && a.entry_believed == s0.pos, "C02/repeated.greedy-tries-another-item-from-current-state");
             if a.ok {
@@ -142,7 +143,7 @@ pub fn h_sepby_next<M: VMode, Er: VEr>() {
             vcover!(true, "separated_by.next: at the cap");
             vassert!(ok && !some && !sep.called && !it.called, "C02/separated_by.stops-at-at_most-without-trying-more");
             vassert!(s.pos == s0.pos && s.nsec == s0.nsec && s.alt == s0.alt && st == st0 && s.believed == s.pos, "C02/separated_by.stopping-at-the-cap-changes-nothing");
-            vassert!(st0 >= at_least, "C02/separated_by.stop-at-cap-only-when-minimum-reached");
+            vassert_finding!(st0 >= at_least, "C02/separated_by.stop-at-cap-only-when-minimum-reached");
         } else {
             // is a separator attempted before the item?
             let sep_expected = if st0 == 0 { lead } else { true };
